@@ -357,12 +357,25 @@ func runC15Mod2(c *Ctx) {
 		for _, cl := range []bool{false, true} {
 			m := &Model{Num: map[string]float64{}, Bool: map[string]bool{"geom.(LineString).IsEmpty($0)": e, "geom.(LineString).IsClosed($0)": cl}, Missing: map[string]bool{}}
 			it := &k4interp{p: c.P, m: m, mem: map[string]k4val{}}
+			// the points handed to NewMultiPoint, however the list was built (literal, make + stores, appends)
+			var members []string
+			it.onOpaque = func(name string, args []k4val) {
+				if name == "geom.NewMultiPoint" && len(args) == 1 && args[0].kind == 8 {
+					members = nil
+					for i := 0; i < args[0].ln; i++ {
+						members = append(members, it.mem[fmt.Sprintf("%s[%d]", args[0].s, args[0].off+i)].String())
+					}
+				}
+			}
 			res, err := it.call(f, []k4val{{kind: 3, s: "$0"}}, nil)
 			if err != nil || len(res) != 1 {
 				undec = fmt.Sprintf("%v %s", err, missingList(m))
 				continue
 			}
 			got := res[0].String()
+			if strings.HasPrefix(got, "geom.NewMultiPoint(") && members != nil {
+				got = "geom.NewMultiPoint([" + strings.Join(members, "|") + "])"
+			}
 			if e || cl {
 				if got != "zero" {
 					problem = fmt.Sprintf("empty=%v closed=%v: boundary is %s, expected the empty MultiPoint", e, cl, trunc(got))
@@ -444,7 +457,10 @@ func runC12Expand(c *Ctx) {
 		}
 		models++
 		m.Missing = map[string]bool{}
-		it := &k4interp{p: c.P, m: m, mem: map[string]k4val{}, inline: inlf}
+		// the join of two envelopes (specified above) may be what the point case delegates to
+		it := &k4interp{p: c.P, m: m, mem: map[string]k4val{}, inline: func(h *ssa.Function) bool {
+			return inlf(h) || FuncName(h) == "geom.(Envelope).ExpandToIncludeEnvelope"
+		}}
 		res, err := it.call(g, []k4val{{kind: 3, s: "$0"}, {kind: 3, s: "$1"}}, nil)
 		if err != nil || len(res) != 1 || res[0].kind != 3 {
 			undec = fmt.Sprintf("%v %s", err, missingList(m))
